@@ -438,6 +438,29 @@ fn observe_checks(entry: &Path, case_dir: &Path, names: &[String], spans: &[Vec<
     json!({"container": container, "files": file_checks, "packs": pack_checks})
 }
 
+fn fault_hits_manifest_slot(fault: &Fault, spans: &[Vec<PackSpan>]) -> bool {
+    let ranges: Vec<(usize, u64, u64)> = match fault {
+        Fault::Flip { file, pos, .. } => vec![(*file, *pos, *pos + 1)],
+        Fault::Zero { file, pos, len } | Fault::Overwrite { file, pos, len, .. } => vec![(*file, *pos, *pos + *len)],
+        Fault::Multi(v) => return v.iter().any(|f| fault_hits_manifest_slot(f, spans)),
+        _ => vec![],
+    };
+    for (fi, lo, hi) in ranges {
+        for s in &spans[fi] {
+            if s.kind != b'm' {
+                continue;
+            }
+            for slot in &s.info_slots {
+                let a = s.start + slot;
+                if lo < a + 256 && hi > a {
+                    return true;
+                }
+            }
+        }
+    }
+    false
+}
+
 pub fn child_main(args: &Args) -> ! {
     // rest: mode image_dir lo hi
     let mode = Mode::parse(&args.rest[0]);
@@ -471,9 +494,65 @@ pub fn child_main(args: &Args) -> ! {
     let _hooks = FHooks::install();
     proc::child::install_panic_hook();
 
+    // full observation: the container dump, plus every pack opened directly through its own
+    // constructor at its pristine span, plus (C05) the same again after a legitimate
+    // set_location rewrite of every listed pack to its own pristine location
+    let manifest_uuids: Vec<(uuid::Uuid, String)> = {
+        write_files(&case_dir, &names, &pristine_bytes);
+        let mut v = vec![];
+        if let Ok(cp) = jubako::tools::open_pack(&entry) {
+            if let Ok(Some(r)) = cp.get_manifest_pack_reader() {
+                if let Ok(m) = jubako::reader::ManifestPack::new(r) {
+                    let d = m.get_directory_pack_info();
+                    v.push((d.uuid, d.pack_location.as_str().to_string()));
+                    for i in m.get_pack_infos() {
+                        v.push((i.uuid, i.pack_location.as_str().to_string()));
+                    }
+                }
+            }
+        }
+        v
+    };
+    let observe = |files: &[Vec<u8>], rewrite: bool| -> Dump {
+        let mut d = dump::dump_container(&entry, &spec);
+        for (fi, fspans) in spans.iter().enumerate() {
+            for (si, span) in fspans.iter().enumerate() {
+                if span.kind == b'C' {
+                    continue;
+                }
+                let a = span.start as usize;
+                let b = (span.start + span.size) as usize;
+                if b <= files[fi].len() {
+                    dump::dump_direct(&format!("{}#{}", names[fi], si), &files[fi][a..b], span.kind, &mut d);
+                } else {
+                    d.push(format!("direct[{}#{}]", names[fi], si), Leaf::Err("Truncated".into()));
+                }
+            }
+        }
+        if rewrite {
+            // a rewrite that changes nothing must not launder damaged pack descriptions
+            let mut all_ok = true;
+            for (u, loc) in &manifest_uuids {
+                match jubako::tools::set_location(&entry, *u, loc.as_str().into()) {
+                    Ok(Some(_)) => {}
+                    _ => all_ok = false,
+                }
+            }
+            // a refused rewrite is an error answer (accepted); a rewrite that succeeded is "ok"
+            d.push(
+                "after_rewrite/set_location",
+                if all_ok { Leaf::Val("ok".into()) } else { Leaf::Err("refused".into()) },
+            );
+            let d2 = dump::dump_container(&entry, &spec);
+            for (p, l) in d2.0 {
+                d.push(format!("after_rewrite/{p}"), l);
+            }
+        }
+        d
+    };
     // pristine observation (must not fail: harness error otherwise)
     write_files(&case_dir, &names, &pristine_bytes);
-    let pristine_dump = dump::dump_container(&entry, &spec);
+    let pristine_dump = observe(&pristine_bytes, mode == Mode::C05);
 
     for i in lo..hi {
         proc::child::begin(i);
@@ -487,10 +566,18 @@ pub fn child_main(args: &Args) -> ! {
                 json!({"fired": fired, "obs": obs})
             }
             Mode::C05 | Mode::C06 => {
-                let d = dump::dump_container(&entry, &spec);
-                let diffs = dump::structural_diff(&pristine_dump, &d);
+                // the rewrite step only for damage that lands in a manifest pack-info slot (it is
+                // the only structure set_location reads and re-signs)
+                let in_slot = mode == Mode::C05 && fault_hits_manifest_slot(fault, &spans);
+                let d = observe(&files, in_slot);
+                let reference = if in_slot {
+                    pristine_dump.clone()
+                } else {
+                    Dump(pristine_dump.0.iter().filter(|(p, _)| !p.starts_with("after_rewrite/")).cloned().collect())
+                };
+                let diffs = dump::structural_diff(&reference, &d);
                 let nerr = d.0.iter().filter(|(_, l)| l.is_err()).count();
-                let changed = d != pristine_dump;
+                let changed = d != reference;
                 json!({
                     "fired": fired,
                     "diffs": diffs.iter().take(6).collect::<Vec<_>>(),
